@@ -15,7 +15,7 @@ CHECKS = {
              'C11/C18 rely on); every vector TLC dumps is replayed into the real CalculateLCOELCOHLCOC; economics snapshots of '
              'real runs over every (economic model, end-use branch) incl. add-on recomputation and SBT examples are validated by '
              'TraceLevelized.tla in exact rational arithmetic (check fails as machinery failure if any of the 18 model/branch '
-             'combinations was not exercised by a real run).',
+             'combinations was not exercised by a real run). A seeded choice of the runs is repeated in one process followed by neighbours that restate one of its figures (sim.run_chains): each neighbour is judged against its own input.',
         note='Trusted: TLC, BigInteger rationals, float projection. Tolerance 1e-9 relative. CLGS/AGS (model 4) and SUTRA not covered. '
              'Continuous inputs sampled by seed.',
         tech='TLA+ spec (LevelizedDef/Levelized.tla) model-checked with TLC; TLC-generated vectors replayed into code; TLC trace validation'),
@@ -26,7 +26,7 @@ CHECKS = {
              'dumps is replayed into integrate_time_series_slice, annual_electricity_pumping_power and remaining_reservoir_heat_content; '
              'a snapshot taken right after the surface plant Calculate of every run (all 8 plant classes, all cogeneration variants, '
              '1..12 steps per year, district heating daily split) is validated step by step and year by year by TraceEnergy.tla in exact '
-             'rational arithmetic. The flows are projected again at the end of Model.Calculate(): downstream economics modules (add-ons, S-DAC-GT) may add to the energy sold but must leave extracted, pumped and remaining heat as the plant left them (C02_reported_unchanged).',
+             'rational arithmetic. The flows are projected again at the end of Model.Calculate(): downstream economics modules (add-ons, S-DAC-GT) may add to the energy sold but must leave extracted, pumped and remaining heat as the plant left them (C02_reported_unchanged). Neighbour chains in one process as in C01. Beyond the property: Downstream.tla / TraceDownstream.tla (add-ons and S-DAC-GT between the surface plant and the revenue loop) are model-checked and validated on the same corpus; their fit_ds_* clauses are reported as model drift only.',
         note='Trusted: TLC, BigInteger rationals, float projection. The last-year (short slice / single-sample) convention is a model-fit clause '
              '(drift warning, not violation). Water properties and plant efficiency correlations are not recomputed. SUTRA/AGS not covered.',
         tech='TLA+ spec (Energy.tla) model-checked with TLC; TLC-generated vectors replayed into code; TLC trace validation (TraceEnergy.tla)'),
@@ -36,12 +36,12 @@ CHECKS = {
              'every override-flag subset x plant class x incentive switch (closed forms of CostRollupDef.tla as invariants); every '
              'configuration TLC visits is turned into a real input and run (quick: 260 sampled), Drilling.tla vectors are replayed '
              'into calculate_total_drilling_lengths_m, and the economics snapshot of every run (grid, all 17 well-cost correlations, '
-             'examples incl. SBT) is validated stage by stage by TraceCostRollup.tla in exact rational arithmetic. End-use equipment costs the user writes (chiller, heat pump, district-heating network and its O&M), including 0 and figures equal to the declared default, are the figures used (C03_given_equipment).',
+             'examples incl. SBT) is validated stage by stage by TraceCostRollup.tla in exact rational arithmetic. End-use equipment costs the user writes (chiller, heat pump, district-heating network and its O&M), including 0 and figures equal to the declared default, are the figures used (C03_given_equipment). Neighbour chains in one process as in C01.',
         note='Trusted: TLC, BigInteger rationals, float projection. Component correlations themselves are not recomputed. SUTRA/CLGS not covered.',
         tech='TLA+ spec (CostRollup.tla) model-checked with TLC; TLC-enumerated configurations run through the code; TLC trace validation'),
     'C04': dict(
         cat='model_checking', ref='DESIGN.md section 5 C04',
-        text='CashFlow.tla (cash-flow assembly loops and payback scan as a loop machine) is model-checked exhaustively over small series of every sign pattern incl. negative capital cost; the same small series are replayed into the real CalculateRevenue, calculate_npv and CalculateFinancialPerformance; economics snapshots of real runs (all end-uses, plants, economic models, add-ons, carbon, sign-pattern drivers, examples) are validated year by year by TraceCashFlow.tla in exact rational arithmetic (cf, cum, per-product revenue, NPV both conventions, IRR residual, VIR, MOIC, payback, N/A).',
+        text='CashFlow.tla (cash-flow assembly loops and payback scan as a loop machine) is model-checked exhaustively over small series of every sign pattern incl. negative capital cost; the same small series are replayed into the real CalculateRevenue, calculate_npv and CalculateFinancialPerformance; economics snapshots of real runs (all end-uses, plants, economic models, add-ons, carbon, sign-pattern drivers, examples) are validated year by year by TraceCashFlow.tla in exact rational arithmetic (cf, cum, per-product revenue, NPV both conventions, IRR residual, VIR, MOIC, payback, N/A). Neighbour chains in one process as in C01 (construction years, lifetime and rates among the restated figures).',
         note='Trusted: TLC, BigInteger rationals, float projection. IRR by residual <= 1e-6 of sum of |terms|; other clauses 1e-9 of sum of |terms|. SUTRA family not covered. Continuous inputs sampled by seed.',
         tech='TLA+ spec (CashFlow.tla) model-checked with TLC; TLC trace validation (TraceCashFlow.tla) of recorded runs; small-series replay into code'),
     'C05': dict(
@@ -51,7 +51,7 @@ CHECKS = {
              '(ResourceDef.tla) over every ordering of depth, boundaries and Tmax crossing for 1..3/4 segments and all profiles x limits; TLC '
              'layouts are run through the real reader + Reservoir.Calculate; reservoir/well-bore snapshots of real runs (models 1-4, 1-4 '
              'segments, binding caps, limits down to 0.5 %) are validated by TraceResource.tla (bht, depth cap, tmax, start, limit, restart '
-             'period; upper bound and monotone for models 3 and 4).',
+             'period; upper bound and monotone for models 3 and 4). Neighbour chains in one process as in C01.',
         note='Known finding: regime Trock <= Tinj (accepted input) breaks the upper/monotone clauses for models 3/4. The analytical drawdown '
              'solutions are not recomputed. Continuous inputs sampled by seed.',
         tech='TLA+ spec (Resource.tla) model-checked with TLC; TLC layouts replayed into code; TLC trace validation (TraceResource.tla)'),
@@ -63,7 +63,7 @@ CHECKS = {
              'succeeds (the failing-lookup counterexample is required in the thorough tier). Against the code: (a) every float parameter of '
              '8 families x every other convertible catalogue unit through the real ReadParameter -> read_parameters -> pre-print unit pass '
              '(351 cases, complete); (b) seeded paired full runs compared on every computed figure; (c) every output parameter x convertible '
-             'unit as a Units: directive on two bases (510; quick 160) - all validated by TraceUnits.tla with the exact factors.',
+             'unit as a Units: directive on two bases (510; quick 160) - all validated by TraceUnits.tla with the exact factors. Parameters whose declared range reaches below zero are also written with a figure below zero in every listed unit.',
         note='241 known findings in known_findings_C06.json (generated by the calibration run, reviewed): raising unit classes, double-converted '
              'echoes, currency prefix/suffix handling, output directives that leak into other lines. Every case not listed still alarms.',
         tech='TLA+ unit-tracking spec (UnitTrack.tla, Units.tla) model-checked with TLC; exhaustive parameter x unit matrix run through the code and validated by TLC (TraceUnits.tla)'),
@@ -86,7 +86,7 @@ CHECKS = {
              'TLC dumps are replayed through real caching and non-caching GeophiresXClient objects over 9 input families incl. failing '
              'requests and file rewrites, and the recorded histories validated by TraceClient.tla (restore, freshness against a stand-alone '
              'reference run, purity of the outcome); contamination sequences in one process and CLI sub-processes under 3 hash seeds x 2 '
-             'start directories are validated by TraceHistory.tla (same input => same result). Pairs of parameters whose reading interferes (one writes the other, or both write a third: discovered through the real reader) are given conflicting values and run under 4-7 hash seeds. Failed runs are also produced at seeded crash points (a failure raised at a line of each module\'s Calculate that a recorded run executes), each followed by a reference input whose full-precision digest, cwd and argv must be unchanged.',
+             'start directories are validated by TraceHistory.tla (same input => same result). Pairs of parameters whose reading interferes (one writes the other, or both write a third: discovered through the real reader) are given conflicting values and run under 4-7 hash seeds. Failed runs are also produced at seeded crash points (a failure raised at a line of each module\'s Calculate that a recorded run executes), each followed by a reference input whose full-precision digest, cwd and argv must be unchanged. One-figure neighbours vary a figure of any module (reservoir, wellbore, surface plant, economics) on bases that include price schedules, tax credits and incentives.',
         note='Histories for replay are sampled by seed from the exhaustive TLC dump (quick 110, thorough 1600). Results compared as report '
              'text without date/time lines.',
         tech='TLA+ spec (Client.tla) model-checked with TLC; TLC-generated histories replayed into the real client; TLC trace validation'),
@@ -100,7 +100,7 @@ CHECKS = {
              '8 plant types, 3 economic models, lifetimes 1..100, construction years 1..14, time steps 1..12, foreign input units, add-ons, '
              'S-DAC-GT, overpressure, examples) are snapshotted at the `calculated` hook and TraceReport.tla compares every labelled figure '
              'and every table cell of the .out file with the snapshot in exact rationals: value in the printed unit (exact unit factors of '
-             'Units.tla) rounded to the printed precision, unit label, N/A rule, text fields, row counts, year order, heading units.',
+             'Units.tla) rounded to the printed precision, unit label, N/A rule, text fields, row counts, year order, heading units. One job in six requests another unit for price columns of the revenue table (Units: directives): figures and column heading must agree.',
         note='Lines the specification does not know (SUTRA/AGS-specific, Calculation Time) are counted as unexplained and not judged. '
              'Precision is read from the printed token, so a change of the number of decimals alone is not a violation.',
         tech='TLA+ spec of the report writer (Report.tla/ReportDef.tla) model-checked with TLC; TLC trace validation of real reports against the pre-print Model snapshot (TraceReport.tla)'),
@@ -112,7 +112,7 @@ CHECKS = {
              '(lifetimes 2..99, up to 14 construction years, overflowing widths, carbon / add-on / S-DAC-GT blocks, examples) are parsed by the '
              'real client in sub-processes under three hash seeds and compared with an independent lexical tokenisation by TraceParser.tla: '
              'every field against the exact-label line of its own section, unambiguity of the lookup, every cell and the row count of every '
-             'profile table, header arity, CSV export, JSON side file (rounded to the displayed precision), identical structure across seeds. Every result object is re-serialised after all reports of the process were parsed; JSON entries (scalars and series) are compared with the outputs as computed.',
+             'profile table, header arity, CSV export, JSON side file (rounded to the displayed precision), identical structure across seeds. Every result object is re-serialised after all reports of the process were parsed; JSON entries (scalars and series) are compared with the outputs as computed. The first reports of the corpus are rewritten in place with other figures of the same width and read again in the same process.',
         note='Independent tokeniser (harness/report.py) is part of the trusted base. Unit-less "Number..." fields carry the client\'s unit "count".',
         tech='TLA+ string-level parser spec (Parser.tla, collision matrix) checked with TLC; TLC trace validation of real reports vs the real client (TraceParser.tla)'),
     'C11': dict(
@@ -121,7 +121,7 @@ CHECKS = {
              'prices do not occur in the definition); run pairs and short ladders on seeded bases over all economic models and end-uses are '
              'executed for real and validated by TraceRelation.tla: all costs x k => LC x k, prices + delta => LC equal and NPV strictly in the '
              'same direction (energy sold positive), efficiency / 2 => LCOH x 2, null add-on / zero-rate tax credit / zero grant => every '
-             'reported economic figure and the whole cash-flow series unchanged. Price pairs also run on bases that restate an end-use option next to a plant type of another kind.',
+             'reported economic figure and the whole cash-flow series unchanged. Price pairs also run on bases that restate an end-use option next to a plant type of another kind. Price ladders also raise ONE sold product at a time over three rungs.',
         note='Homogeneity pairs make every cost an input (totals, well/stimulation, purchase rates, fees, grants). Relations to 1e-9 relative. '
              'Bases sampled by seed (quick 60).',
         tech='TLA+ lemmas model-checked with TLC (Levelized.tla); TLC validation of real run pairs (TraceRelation.tla)'),
@@ -131,7 +131,7 @@ CHECKS = {
              'an alphabet of parameter and decoration lines (padding, trailing comments with commas, CRLF, comment prefixes), invariant '
              'dictionary = last-wins meaning; every file TLC dumps is replayed into the real read_input_file; for bases of every family, '
              'seeded layout variants (permutations, decorations, duplicates before the governing line, CRLF, client params-override path '
-             'with/without final newline) are run for real and TraceHistory.tla checks one abstract parameter set => one result.',
+             'with/without final newline) are run for real and TraceHistory.tla checks one abstract parameter set => one result. Duplicate layouts include the governing line standing twice around a stale occurrence.',
         note='Permutations and decorations are sampled by seed (the tokeniser itself is checked exhaustively on the model). Results compared as '
              'report text without date/time lines. Add-on lines keep their relative order as the property allows.',
         tech='TLA+ tokeniser spec (InputFile.tla) model-checked with TLC; TLC-generated files replayed into code; TLC validation of run histories (TraceHistory.tla)'),
@@ -141,7 +141,7 @@ CHECKS = {
              'release) and TLC explores every assignment and interleaving of 3 workers x 4 tasks with a failing task (C13_distinct, NoReplica, '
              'C13_rows, termination; the pinned no-reseed design must violate NoReplica); real MC runs of both codes with all five '
              'distributions and pool sizes 1..16, recorded through guarded worker hooks, are validated by TraceMC.tla: per-process event '
-             'order, support, pairwise distinct continuous vectors, all iterations started, file rows = rows written = simulated-ok iterations. All three programs of the driver (GEOPHIRES, HIP-RA-X, legacy HIP-RA), distributions of extreme scale and width, result files named by a relative settings line.',
+             'order, support, pairwise distinct continuous vectors, all iterations started, file rows = rows written = simulated-ok iterations. All three programs of the driver (GEOPHIRES, HIP-RA-X, legacy HIP-RA), distributions of extreme scale and width, result files named by a relative settings line. Studies are also started with the lock file of a writer that died holding it in the result directory, and after an earlier study on the same base file in the same driver process.',
         note='Schedules of the real runs are whatever the OS produces (7 runs quick); interleavings are exhaustive only on the model. Distinct '
              'stream positions are assumed to give distinct doubles. RNG fingerprints / lock overlap are fit_ observations.',
         tech='TLA+ concurrent spec (MonteCarlo.tla) model-checked with TLC incl. liveness; TLC trace validation of hooked real runs (TraceMC.tla)'),
@@ -151,7 +151,7 @@ CHECKS = {
              'shows a dropped row). Real MC runs incl. high-contention HIP-RA-X (120 ms-scale iterations on 16 workers) and 40 % failing '
              'iterations: every row is re-simulated from its recorded samples through the real simulator; TraceMC.tla checks column order, '
              'own-sample, replay token equality, rows whole and complete, and recomputes min/max/median/mean/std exactly (rationals) against '
-             'the JSON summary and the text block. Sampled names that are prefixes of other base parameters; a file with rows must be summarised for every requested output (C14_stats_present).',
+             'the JSON summary and the text block. Sampled names that are prefixes of other base parameters; a file with rows must be summarised for every requested output (C14_stats_present). Studies are also run after an earlier study on the same base file (other content) in the same driver process, and with a dead writer\'s lock file in the result directory.',
         note='Row atomicity relies on single-write appends (observed, not proved; pylocker is third party). std compared via exact population variance.',
         tech='TLA+ concurrent spec (MonteCarlo.tla) model-checked with TLC; TLC trace validation with exact-rational statistics and row re-simulation'),
     'C15': dict(
@@ -161,7 +161,7 @@ CHECKS = {
              'rate, inflation) incl. non-integer depletion periods and the zero-step crash; every vector is replayed into the real functions; '
              'well-bore snapshots of real runs (impedance / index, pumped / self-flowing, overpressure) are validated step by step by '
              'TraceHydraulics.tla (non-negative pump powers, total = production + injection, pressure clauses) together with friction ladders '
-             'over 6 diameters from the real WellPressureDrop / InjectionWellPressureDrop.',
+             'over 6 diameters from the real WellPressureDrop / InjectionWellPressureDrop. One run in three sweeps the well diameter in 1 % steps (231 rungs) for the friction clause; neighbour chains in one process as in C01.',
         note='The friction function stays in the code (TLC compares ladder values). Hydrostatic pressure recovered from the series start.',
         tech='TLA+ spec (Hydraulics.tla) model-checked with TLC; vectors replayed into code; TLC trace validation (TraceHydraulics.tla)'),
     'C16': dict(
@@ -169,7 +169,7 @@ CHECKS = {
         text='Schedule.tla is model-checked exhaustively over small schedules (all lifetimes<=4/6, start years, durations, '
              'start>end prices, inflation settings) with the closed form of the property as invariants; every complete '
              'schedule TLC generates is replayed into the real BuildPTCModel/BuildPricingModel with exact equality; '
-             'recorded full runs and ITC/grant/fee run pairs are validated by TraceSchedule.tla in exact rational arithmetic.',
+             'recorded full runs and ITC/grant/fee run pairs are validated by TraceSchedule.tla in exact rational arithmetic. The M2 grid gives every argument two non-degenerate values and is replayed in one process; one-figure neighbour chains of full runs in one process.',
         note='Trusted: TLC, BigInteger rationals (Rat.java), projection of floats by as_integer_ratio. Continuous inputs are '
              'sampled by seed; exhaustive only for the small integer domains of the cfg.',
         tech='TLA+ spec (Schedule.tla) model-checked with TLC; TLC-generated vectors replayed into code; TLC trace validation of recorded runs'),
@@ -179,7 +179,7 @@ CHECKS = {
              'TLC checks over small rationals that the volume fractions, stored = rock + fluid, available <= stored, producible <= available '
              'and exact proportionality of every extensive result to area and to thickness follow from it; the real HIP_RA_X is driven '
              'directly on seeded inputs over the declared ranges (provided vs derived depth / pressure / density / heat capacity), single-run '
-             'clauses validated by TraceHipRa.tla, area and thickness ladders {0.1, 0.5, 2, 10} and unit variants by TraceRelation.tla.',
+             'clauses validated by TraceHipRa.tla, area and thickness ladders {0.1, 0.5, 2, 10} and unit variants by TraceRelation.tla. The two recoverable fractions are laddered down to the range end 0 and appear at their range ends in bases.',
         note='Water-property look-ups stay in the code. Relations to 1e-9 relative. Inputs sampled by seed (quick 150 bases, ~1500 runs).',
         tech='TLA+ spec (HipRa.tla) model-checked with TLC; TLC validation of real runs and run ladders (TraceHipRa.tla, TraceRelation.tla)'),
     'C18': dict(
@@ -188,7 +188,7 @@ CHECKS = {
              'layouts), WellCost.tla (17 correlations non-decreasing on 500..7000 m, every grid point replayed into the real function), '
              'Levelized.tla (MonotoneInCost); ladders of real runs differing in one parameter are validated by TraceRelation.tla: bht/gradient, '
              'bht/depth (incl. multi-segment columns with binding caps), TDP drawdown at every time step, initial production temperature / '
-             'flow, well cost / depth for each correlation, NPV and levelized costs / 31 cost inputs and adjustment factors (cogeneration with the plant-cost split given and left to the model).',
+             'flow, well cost / depth for each correlation, NPV and levelized costs / 31 cost inputs and adjustment factors (cogeneration with the plant-cost split given and left to the model). Small plants (one doublet at a low flow rate) with the O&M adjustment factors as ladders.',
         note='Known findings: gradient ladder crossing 1.0 (unit heuristic); drawdown ladder in the regime Trock <= Tinj. Ladders sampled by seed.',
         tech='TLA+ lemmas model-checked with TLC (Resource, WellCost, Levelized); TLC validation of real run ladders (TraceRelation.tla)'),
     'C19': dict(
@@ -207,7 +207,7 @@ CHECKS = {
              'resolution) is model-checked and its reachable matrix dumped; every cell is executed for real (python -m geophires_x '
              'sub-processes with the guard off, in-process client, the run embedded in a Monte Carlo work package, direct pipeline) and '
              'TraceEntry.tla checks same report, same JSON, files created exactly where OutPath says, non-zero exit / exception and no '
-             'report on failure. In-process entry points are also run "warm" (after heterogeneous requests in the same process) on inputs that lean on defaults, and on inputs that spell out every in-range default.',
+             'report on failure. In-process entry points are also run "warm" (after heterogeneous requests in the same process) on inputs that lean on defaults, and on inputs that spell out every in-range default. Entry.tla history value "rewritten": the client has served the same input file with other, succeeding, content before.',
         note='The matrix is exhaustive; concrete inputs are seeded (quick: 2 families + example1). MC-embedded runs compared through extracted tokens.',
         tech='TLA+ spec (Entry.tla) model-checked with TLC, matrix executed against the real entry points, TLC trace validation (TraceEntry.tla)'),
 }
